@@ -72,6 +72,8 @@ def sweep_front(profile, n_quick, n_thorough, cats=None, corpus=None, compile=Fa
         if os.path.isdir(cdir):
             cmd += ["-corpus", cdir]
         if ctx.get("replay"):
+            if not _is_case_file(ctx["replay"]):
+                return  # a replay of another kind of sweep (runner scenario, history): nothing to run here
             cmd += ["-only", ctx["replay"]]
         if compile:
             cmd += ["-compile"]
@@ -150,10 +152,23 @@ def sweep_runtime(n_quick, n_thorough):
         n = (n_quick if ctx["tier"] == "quick" else n_thorough) * ctx["widen"]
         cmd = [ctx["harness"], "runtime", "-cli", ctx["cli"], "-driver", ctx["driver"], "-n", str(n), "-seed", str(ctx["seed"]),
                "-prop", ctx["pid"], "-replays", ctx["replays"], "-out", outp]
+        if ctx.get("replay") and _is_case_file(ctx["replay"]):
+            cmd += ["-only", ctx["replay"]]
+        cdir = os.path.join(ctx["verif"], "corpus", ctx["pid"])
+        if os.path.isdir(cdir):
+            cmd += ["-corpus", cdir]
         rc, out = ctx["run"](cmd, cwd=ctx["scratch"])
         ctx["log"](out.strip()[-1500:])
         _take_summary(ctx, results, outp, out)
     return f
+
+
+def _is_case_file(path):
+    try:
+        j = json.load(open(path))
+        return isinstance(j, dict) and "files" in j and "setup" in j
+    except (ValueError, OSError):
+        return False
 
 
 RUNTIME_RULE = ("; run-time part: struct pairs with instrumented getters, converters and hooks (call trace, fault plan), generated "
